@@ -16,7 +16,7 @@ RULE = ("scenario = (items preloaded in the memcached model, client configuratio
         "END, VALUE lines, a lone CR at the end, empty values; multi-key replies; value sizes 0,1,4090..4100,8190..8194,"
         "100000; store/delete/incr/touch/version/flush lines; set_many/delete_many multi-line replies; stats (also "
         "cachedump ITEM lines and valueless STATs); raw_command with end tokens CRLF, END CRLF, LF CR LF END CR LF and "
-        "a token whose prefix occurs inside the body; plus Hypothesis-drawn values/keys. Segmentations: every subset "
+        "a token whose prefix occurs inside the body; plus Hypothesis-drawn values/keys; and the same calls after a history of 1-24 earlier fetches (empty, small, large values) on the same client object. Segmentations: every subset "
         "of cut positions for streams <= 14 bytes (thorough 16); all 1-, 2- (and thorough 3-) cut segmentations for "
         "streams <= 64 bytes; all-single-byte; for long streams cuts at 4096k-1/4096k/4096k+1, in the last 8 bytes, "
         "and exact 4096-byte pieces. Oracle (metamorphic): result (value incl. type, or exception class) equals the "
@@ -53,6 +53,13 @@ def _call(env, scn):
     cfg = scn.get("cfg", {})
     c = env.client(scn.get("kind", "client"), **cfg)
     r = scn["op"]
+    # optional history: earlier calls on the SAME client object, delivered unsplit in both runs (their replies are
+    # not part of the stream under test); state a reader carries from call to call must not change the result
+    if scn.get("history"):
+        saved, env.net.schedule, env.net._pi = env.net.schedule, [HUGE], 0
+        for h in scn["history"]:
+            env.call(ops.invoke, c, h)
+        env.net.schedule, env.net._pi = saved, 0
     if r["op"] == "raw_command":
         return env.call(c.raw_command, r["command"], r["end"])
     return env.call(ops.invoke, c, r)
@@ -277,6 +284,30 @@ def kcut_cases(tier, seed):
             yield {"scn": scn, "cuts": list(range(1, L, 2)), "eintr": False}
 
 
+def history_cases(tier, seed):
+    """the same segmentations after 1..24 earlier fetches (small, empty and large values) on the same client object"""
+    store = [(b"k", b"tail\r", 0), (b"e", b"", 0), (b"s", b"xy", 0), (b"big", b"0123456789\r\n" * 400, 0)]
+    hists = []
+    for n in (1, 3, 8, 13, 14, 20, 24):
+        hists.append([{"op": "get", "key": "e"}] * n)
+        hists.append([{"op": "get", "key": "s"}] * (n - 1) + [{"op": "get", "key": "e"}])
+        hists.append([{"op": "get", "key": "big"}] + [{"op": "gets", "key": "s"}] * n)
+        hists.append([{"op": "get_many", "keys": ["s", "e", "nokey"]}] * n)
+    targets = [S({"op": "get", "key": "k"}, store, expect=b"tail\r"), S({"op": "get", "key": "e"}, store, expect=b""),
+               S({"op": "gets_many", "keys": ["s", "e"]}, store, expect={"s": (b"xy", b"3"), "e": (b"", b"2")}),
+               S({"op": "get", "key": "big"}, store, expect=b"0123456789\r\n" * 400)]
+    for h in hists:
+        for t in targets:
+            scn = dict(t, history=h)
+            stream = baseline(scn)[1]
+            L = len(stream)
+            cuts = list(range(1, L)) if L <= 80 else sorted(set(list(range(1, 40)) + list(range(L - 12, L)) + [4095, 4096, 4097]))
+            for c in cuts:
+                if 0 < c < L:
+                    yield {"scn": scn, "cuts": [c], "eintr": False}
+            yield {"scn": scn, "cuts": list(range(1, min(L, 200))), "eintr": False}
+
+
 def long_cases(tier, seed):
     for scn in corpus():
         stream = baseline(scn)[1]
@@ -410,6 +441,7 @@ PARTS = [
     Part("all-cut-subsets", "enum", check, cases=subsets_cases, exhaustive=True),
     Part("k-cuts", "enum", check, cases=kcut_cases, exhaustive=True),
     Part("long-streams", "enum", check, cases=long_cases),
+    Part("after-a-history", "enum", check, cases=history_cases),
     Part("random", "hyp", check, strategy=random_strategy,
          examples={"quick": 400, "thorough": 4000}, shards={"quick": 4, "thorough": 16}),
     Part("atheris", "enum", check_fuzz, cases=fuzz_cases, tiers=("thorough",), shards={"quick": 1, "thorough": 16}),
